@@ -77,6 +77,8 @@ func c09Run(r *Run, only map[string]bool) {
 	guarded("C09.R9", func() { c09R9(r, pf, mf, rv, um) })
 	guarded("C09.R10", func() { c09R10(r, pf, mf, rv) })
 	guarded("C09.R11", func() { c09R11(r, pf, mf, rv, um) })
+	guarded("C09.R12", func() { c09R12(r, mf) })
+	c09Trace(r)
 }
 
 // ---- R1: one offset-relative base ------------------------------------------------------
